@@ -7,7 +7,7 @@
    completed trial whichever trials were skipped (tSkip) and in whichever order the others complete.
    FIDELITY under any clock: the file-to-file theorems of C01 / C03 and the frame theorem of C10 are stated for an
    arbitrary environment; they are instantiated here with an explicit, arbitrary clock (C13_fidelity_any_clock,
-   C13_alpha_fidelity_any_clock, C13_frames_any_clock), with the hypotheses of those theorems (`leaves`, zlib
+   C13_alpha_fidelity_any_clock, C13_frames_any_clock), with the hypotheses of those theorems (zlib
    oracle, container side conditions). Every landing point k and explicit answer patterns over the frame checks
    are additionally replayed and decoded by the specification on every run. *)
 From OxiVerif Require Import Base.Common Spec.Adam7 Spec.Sem Spec.Decode Spec.DecodeFile Model.Types Model.Options Model.Headers Model.PngData Model.Evaluate Model.Optimize
@@ -53,7 +53,7 @@ Qed.
 Print Assumptions C13_all_skipped.
 
 (* fidelity, whichever checks of the clock see it expired (clock : site -> bool arbitrary, not even monotone) *)
-Theorem C13_fidelity_any_clock : forall (L : leaves) zd zi br (clock : site -> bool) o (inflate : list Z -> option (list Z)) bytes out pic nm ih rest,
+Theorem C13_fidelity_any_clock : forall zd zi br (clock : site -> bool) o (inflate : list Z -> option (list Z)) bytes out pic nm ih rest,
   let e := {| z_deflate := zd; z_inflate := zi; e_brute := br; dl := clock |} in
   optimize_alpha o = false -> scale_16 o = false ->
   bytes_ok bytes ->
@@ -68,10 +68,10 @@ Theorem C13_fidelity_any_clock : forall (L : leaves) zd zi br (clock : site -> b
      wf_ctype (ctype (hdr (raw p))) (depth (hdr (raw p)))) ->
   optimize_from_memory e o bytes = Ok out ->
   out = bytes \/ exists p', out = output p' /\ (container_ok p' -> spec_decode_png inflate (output p') = Some pic).
-Proof. intros L zd zi br clock o inflate bytes out pic nm ih rest e. exact (optimize_from_memory_lossless_partial L e o inflate bytes out pic nm ih rest). Qed.
+Proof. intros zd zi br clock o inflate bytes out pic nm ih rest e. exact (optimize_from_memory_lossless_partial e o inflate bytes out pic nm ih rest). Qed.
 Print Assumptions C13_fidelity_any_clock.
 
-Theorem C13_alpha_fidelity_any_clock : forall (L : leaves) zd zi br (clock : site -> bool) o (inflate : list Z -> option (list Z)) bytes out pic nm ih rest,
+Theorem C13_alpha_fidelity_any_clock : forall zd zi br (clock : site -> bool) o (inflate : list Z -> option (list Z)) bytes out pic nm ih rest,
   let e := {| z_deflate := zd; z_inflate := zi; e_brute := br; dl := clock |} in
   scale_16 o = false ->
   bytes_ok bytes ->
@@ -87,7 +87,7 @@ Theorem C13_alpha_fidelity_any_clock : forall (L : leaves) zd zi br (clock : sit
   optimize_from_memory e o bytes = Ok out ->
   out = bytes \/ exists p', out = output p' /\
     (container_ok p' -> exists pic', spec_decode_png inflate (output p') = Some pic' /\ pic_aequiv pic pic').
-Proof. intros L zd zi br clock o inflate bytes out pic nm ih rest e. exact (optimize_from_memory_alpha_partial L e o inflate bytes out pic nm ih rest). Qed.
+Proof. intros zd zi br clock o inflate bytes out pic nm ih rest e. exact (optimize_from_memory_alpha_partial e o inflate bytes out pic nm ih rest). Qed.
 Print Assumptions C13_alpha_fidelity_any_clock.
 
 (* animated images: whichever frames the clock lets through, every frame still shows its picture *)
